@@ -49,3 +49,17 @@ Theorem C15_runtime_error_line : forall G fuel st s rest out k st1,
   OErr (match sstmt st1 with Some l => l | None => tline (stmt_tok s) end) k st1.
 Proof. exact exec_error_line. Qed.
 Print Assumptions C15_runtime_error_line.
+
+(* a block (function body, if, for, helper block) that completes hands the
+   current statement back: what fails later in the same tag is reported at the
+   tag, not at the last statement of the block; a block that fails keeps the
+   statement that failed *)
+Theorem C15_completed_block_restores_statement : forall G fuel st b v st1,
+  eval_block G (S fuel) st b = ROk (v, st1) -> sstmt st1 = sstmt st.
+Proof. exact block_restores_stmt. Qed.
+Print Assumptions C15_completed_block_restores_statement.
+
+Theorem C15_failing_block_keeps_statement : forall G fuel st ss k st1,
+  eval_stmts G fuel st ss [] = RErr k st1 -> eval_block G (S fuel) st (Block ss) = RErr k st1.
+Proof. exact block_error_keeps_stmt. Qed.
+Print Assumptions C15_failing_block_keeps_statement.
